@@ -60,7 +60,21 @@ def gen_program(rng, k):
         lines.insert(pos, f)
         if rng.random() < 0.5:
             lines.append('print("after the failing statement")')
-    return lines, fail_stage
+    # lexical variety that must not change the meaning: trailing comments, comment-only and blank lines, indentation
+    out = []
+    for ln in lines:
+        r = rng.random()
+        if r < 0.15 and "\n" not in ln:
+            ln = ln + rng.choice(["  # note", " # 1/0", "#x", " # print(\"no\")"])
+        elif r < 0.22:
+            ln = "  " + ln
+        out.append(ln)
+        r = rng.random()
+        if r < 0.06:
+            out.append(rng.choice(["# just a comment", "   # indented comment"]))
+        elif r < 0.10:
+            out.append(rng.choice(["", "   "]))
+    return out, fail_stage
 
 
 def run_cli(args, home, cwd):
